@@ -118,13 +118,19 @@ Fixpoint est_run (retries : nat) (access : N) (draws : nat -> stream) (w : world
   match es with
   | [] => (true, true)
   | (e, o) :: r =>
-    let '(w', x) := ev_step retries access draws w e in
-    let k := match e with EvEst k _ _ _ => k | EvDel k _ => k end in
-    let agree := match e with EvEst _ _ _ _ => res_agrees x o | EvDel _ _ => true end
+    let '(w0, x) := ev_step retries access draws w e in
+    (* Session Modification is outside the anchored code: whatever it did to the generator is
+       taken from the observation (today: nothing), so that the histories can go on *)
+    let w' := match e with
+              | EvMod _ _ _ _ => World (w_sess w0) (w_drawn w0) (Gen (o_goff o) (o_gused o))
+              | _ => w0
+              end in
+    let k := match e with EvEst k _ _ _ => k | EvDel k _ => k | EvMod k _ _ _ => k end in
+    let agree := match e with EvEst _ _ _ _ => res_agrees x o | _ => true end
                  && world_agrees w' k o in
     let spec := match e with
                 | EvEst k _ _ _ => est_spec access (store_of k (w_sess w)) (live_ids (w_gen w)) o
-                | EvDel _ _ => true
+                | _ => true
                 end in
     let '(a, s) := est_run retries access draws w' r in
     (agree && a, spec && s)
